@@ -32,7 +32,22 @@ def do_replay(path):
             with tempfile.NamedTemporaryFile("w", suffix=".json", delete=False) as f:
                 json.dump(r["overrides"], f)
             args.append(f"replay={f.name}")
+        if r.get("kind") == "keygen-structure":
+            args.append("keygen=1")
         p = subprocess.run(args, capture_output=True, text=True)
+        if r.get("kind") == "keygen-structure":
+            out = json.loads(p.stdout) if p.returncode == 0 else {}
+            from vf import csmt as _c
+            kv = out.get("keygen", {})
+            um, uk = _c.UF(), _c.UF()
+            for a, b in out.get("copies", []):
+                um.union(a, b)
+            for a, b in kv.get("sigma_edges", []):
+                uk.union(a, b)
+            lost = [(a, b) for a, b in out.get("copies", []) if uk.find(a) != uk.find(b)]
+            extra = [(a, b) for a, b in kv.get("sigma_edges", []) if um.find(a) != um.find(b)]
+            print("copy constraints lost by the key:", lost[:5], "extra:", extra[:5])
+            return 1 if (lost or extra) else 0
         if r.get("kind") == "honest-panics":
             print("exit code:", p.returncode, p.stderr[-300:])
             return 1 if p.returncode != 0 else 0
